@@ -124,6 +124,8 @@ class LogicConv2d(_PersistentWiring, nn.Module):
             raise ValueError(f"Unknown forward_sampling: {forward_sampling}")
         if implementation not in (None, "python", "cuda"):
             raise ValueError(f"Unknown implementation: {implementation}")
+        if padding is not None and padding < 0:
+            raise ValueError(f"Padding ({padding}) cannot be negative.")
         self.parametrization = parametrization
         self.forward_sampling = forward_sampling
 
@@ -465,6 +467,8 @@ class LogicConv3d(_PersistentWiring, nn.Module):
         super().__init__()
         if implementation not in (None, "python", "cuda"):
             raise ValueError(f"Unknown implementation: {implementation}")
+        if padding is not None and padding < 0:
+            raise ValueError(f"Padding ({padding}) cannot be negative.")
 
         self.receptive_field_size = _triple(receptive_field_size)
         assert (
